@@ -64,6 +64,7 @@ struct Client {
   uint32_t hello_serial = 0;
   bool stalled = false;            // does not drain at check points
   bool hostile = false;            // raw-bytes client: not flushed at check points
+  std::string raw_handshake;       // bytes a hostile client wrote before its BEGIN
   std::string wire_stream;         // every byte queued after BEGIN (what the bus's loader will see)
   size_t wire_pos = 0;             // start of the next message the bus has not dispatched yet
   bool hostile_lost_sync = false;  // a listed validator finding made the bus accept bytes the codec rejects: stream position unknown
